@@ -84,6 +84,9 @@ def final_element(tab, idx):
 
 
 def run(repo, R):
+    R.rule("PITFALL", "no result buffer typed after an input, no real cast of a transformation, no unbuffered accumulation / first-occurrence scatter through np.unique")
+    from ..pitfalls import report as _pitfalls
+    _pitfalls(repo, R, ['gbasis.evals.stress_tensor'])
     R.rule("SIGMA", "extracted stress tensor == documented -alpha G(e_i,e_j) + (1-alpha) G(e_i+e_j,0) - 1/2 delta_ij beta LAP, and symmetric")
     R.rule("FORCE", "extracted force == - sum_i d_i sigma_ij, derived from the extracted sigma by the Leibniz laws")
     R.rule("HESSIAN", "extracted Hessian H[i][j] == d_j F_i derived from the extracted force; symmetric=True gives (H + H^T)/2")
